@@ -54,9 +54,9 @@ def showJob (j : JobRec) : String :=
 
 def parseRow (s : String) : Option Row :=
   match s.splitOn ":" with
-  | [a, b, c, e] => match nat? a, nat? b, nat? c, nat? e with
-    | some a, some b, some c, some e => some { rid := a, k1 := b, k2 := c, k3 := e }
-    | _, _, _, _ => none
+  | [a, b, c, e, g] => match nat? a, nat? b, nat? c, nat? e, nat? g with
+    | some a, some b, some c, some e, some g => some { rid := a, k1 := b, k2 := c, k3 := e, k4 := g }
+    | _, _, _, _, _ => none
   | _ => none
 
 def parseRows (s : String) : Option (List Row) :=
